@@ -103,6 +103,11 @@ def gen_design(rng, size="small", opts=None):
                   "pnames": [fresh_name(rng, used_p, "q", o["p_esc"]) for _ in range(rng.randint(1, 3))]}
             if rng.random() < o["p_portless_bb"]:
                 bb["pnames"] = []
+            elif rng.random() < o.get("p_posbb", 0.35):
+                # instantiated by position only: its (unnamed) ports are created by the first instance the reader
+                # connects and must be shared by all further ones; every position has one width in the whole file
+                bb["pos"] = True
+                bb["pwidths"] = [rng.choice([1, 1, 2, 3]) for _ in range(rng.randint(1, 3))]
             bbs.append(bb)
     # instantiation structure: mods[0] is the root; mods[i] (i>0) is instanced by some mods[j], j<i
     must = {}  # module index -> list of callee shells that must be instanced there
@@ -112,7 +117,8 @@ def gen_design(rng, size="small", opts=None):
         if rng.random() >= o["p_unused_prim"]:
             must.setdefault(rng.randrange(0, n_mod), []).append(p)
     for b in bbs:
-        must.setdefault(rng.randrange(0, n_mod), []).append(b)
+        for _ in range(rng.randint(2, 3) if b.get("pos") else 1):
+            must.setdefault(rng.randrange(0, n_mod), []).append(b)
     for i, m in enumerate(mods):
         callees = list(must.get(i, []))
         pool = mods[i + 1:] + prims + bbs
@@ -228,8 +234,41 @@ def gen_atom(rng, nets, n, o, allow_const=True, implicit=None, used=None):
     return rng.choice(cands)
 
 
+def gen_fake_slice(rng, nets, n):
+    """a genuine concatenation of n >= 3 single bits whose first and last bit are the two ends of the part-select
+    name[s+n-1:s] while the bits in between are permuted, repeated from elsewhere in the cable or taken from
+    another net: only a writer that looks at EVERY bit tells it from the part-select"""
+    cands = [(name, lsb, w) for name, (lsb, w) in nets.items() if w >= n]
+    if not cands:
+        return None
+    name, lsb, w = rng.choice(cands)
+    s = rng.randint(lsb, lsb + w - n)
+    mid = list(range(s + n - 2, s, -1))
+    bits = [["bit", name, i] for i in mid]
+    k = rng.randrange(3)
+    if k == 0 and len(mid) >= 2:
+        perm = mid[:]
+        while perm == mid:
+            rng.shuffle(perm)
+        bits = [["bit", name, i] for i in perm]
+    else:
+        others = [(nm, l2 + j) for nm, (l2, w2) in nets.items() if nm != name for j in range(w2)]
+        j = rng.randrange(len(bits))
+        if others and k != 2:
+            nm, i = rng.choice(others)
+            bits[j] = ["bit", nm, i]
+        else:
+            alt = [i for i in range(lsb, lsb + w) if i != mid[j]]
+            bits[j] = ["bit", name, rng.choice(alt)]
+    return {"cat": [["bit", name, s + n - 1]] + bits + [["bit", name, s]]}
+
+
 def gen_expr(rng, nets, n, o, implicit=None, used=None):
     """an expression of exactly n bits (n >= 1), or None if impossible"""
+    if n >= 3 and rng.random() < o.get("p_fake_slice", 0.2):
+        e = gen_fake_slice(rng, nets, n)
+        if e is not None:
+            return e
     if rng.random() < 0.35 or n > max([w for (_, w) in nets.values()] + [1]):
         # concatenation
         parts, left = [], n
@@ -302,7 +341,14 @@ def _gen_body(rng, m, callees, o):
             for _ in range(rng.randint(1, 2)):
                 inst["params"].append([fresh_name(rng, pu, "K", 0.0), gen_value(rng)])
             inst["defparam"] = rng.random() < 0.3
-        if c["kind"] == "blackbox":
+        if c["kind"] == "blackbox" and c.get("pos"):
+            inst["map"] = "pos"
+            for wd in c["pwidths"][:rng.randint(1, len(c["pwidths"]))]:
+                e = gen_expr(rng, nets, wd, o, implicit, used)
+                if e is None:
+                    e = {"cat": [["const", rng.choice("01")] for _ in range(wd)]} if wd > 1 else ["const", "0"]
+                inst["conns"].append([None, e])
+        elif c["kind"] == "blackbox":
             pn = list(c["pnames"])
             rng.shuffle(pn)
             pn = pn[:rng.randint(1, len(pn))] if pn else []
@@ -439,18 +485,31 @@ def w_expr(L, e):
         w_atom(L, e)
 
 
-def w_attrs(L, attrs):
-    if not attrs:
-        return
-    L.p("("); L.out.append("*"); L._last_word = False
+def attr_groups(attrs):
+    """the (* *) groups the attributes of one object are written in: the reader merges consecutive groups, so the
+    split is irrelevant for the design; it is decided by the key (not by the layout generator) so that a design
+    always has the same text structure.  Both `(* a = 1, flag *)` and `(* a = 1 *) (* flag *)` occur."""
+    groups = []
     for i, (k, v) in enumerate(attrs):
-        if i:
-            L.p(",")
-        L.name(k)
-        if v is not None:
-            L.p("="); L.tok(v, True)
-    L.sp(must=True)
-    L.out.append("*"); L.out.append(")"); L._last_word = False
+        if i and sum(ord(c) for c in k) % 5 < 2:
+            groups.append([])
+        if not groups:
+            groups.append([])
+        groups[-1].append((k, v))
+    return groups
+
+
+def w_attrs(L, attrs):
+    for grp in attr_groups(attrs or []):
+        L.p("("); L.out.append("*"); L._last_word = False
+        for i, (k, v) in enumerate(grp):
+            if i:
+                L.p(",")
+            L.name(k)
+            if v is not None:
+                L.p("="); L.tok(v, True)
+        L.sp(must=True)
+        L.out.append("*"); L.out.append(")"); L._last_word = False
 
 
 def w_decl_range(L, m, name, msb, lsb):
@@ -665,13 +724,26 @@ def denote(design):
     mods = {m["name"]: m for m in design["modules"]}
     # black boxes: names used but never declared
     bb = {}
+    bbpos = {}
     for m in design["modules"]:
         for it in m["body"]:
             if it["t"] == "inst" and it["mod"] not in mods:
-                b = bb.setdefault(it["mod"], {})
                 nets = _nets_full(m)
+                if it["map"] == "pos":
+                    # by position: port k is unnamed, as wide as the k-th expressions
+                    assert it["mod"] not in bb, "named and positional maps on one never-declared module: outside the domain"
+                    ws = bbpos.setdefault(it["mod"], [])
+                    for idx, (pn, e) in enumerate(it["conns"]):
+                        w = max(1, len(eval_expr(e, nets, set(m.get("asc", ())))))
+                        if idx < len(ws):
+                            ws[idx] = max(ws[idx], w)
+                        else:
+                            ws.append(w)
+                    continue
+                assert it["mod"] not in bbpos, "named and positional maps on one never-declared module: outside the domain"
+                b = bb.setdefault(it["mod"], {})
                 for pn, e in it["conns"]:
-                    assert pn is not None, "positional map on a never-declared module is outside the domain"
+                    assert pn is not None
                     b[pn] = max(b.get(pn, 0), max(1, len(eval_expr(e, nets, set(m.get("asc", ()))))))
     out = {"top": design["top"], "defs": {}}
     for m in design["modules"]:
@@ -718,6 +790,10 @@ def denote(design):
                 pw = {p["name"]: p["w"] for p in tgt["ports"]}
                 porder = [p["name"] for p in tgt["ports"]]
                 pasc = set(tgt.get("asc", ()))
+            elif it["mod"] in bbpos:
+                pw = dict(enumerate(bbpos[it["mod"]]))
+                porder = list(range(len(bbpos[it["mod"]])))
+                pasc = set()
             else:
                 pw = bb[it["mod"]]
                 porder = None
@@ -744,6 +820,10 @@ def denote(design):
                                        for pn, w in ports.items()},
                              "port_order": None, "cables": {}, "insts": {}, "assigns": [], "params": {}, "attrs": {},
                              "cable_attrs": {}, "cable_types": {}}
+    for name, ws in bbpos.items():
+        out["defs"][name] = {"lib": "hdi_primitives", "primitive": True, "posports": list(ws),
+                             "ports": {}, "port_order": None, "cables": {}, "insts": {}, "assigns": [], "params": {},
+                             "attrs": {}, "cable_attrs": {}, "cable_types": {}}
     return out
 
 
@@ -795,6 +875,8 @@ def design_features(design):
                 continue
             if it["mod"] not in mods:
                 f.add("blackbox")
+                if it["map"] == "pos":
+                    f.add("blackbox-by-position")
             elif it["mod"] not in declared_so_far:
                 f.add("forward-ref")
             if it["map"] == "pos":
@@ -804,6 +886,10 @@ def design_features(design):
                     f.add("expr:empty")
                 elif isinstance(e, dict):
                     f.add("expr:concat")
+                    a = e["cat"]
+                    if len(a) >= 3 and all(x[0] == "bit" for x in a) and a[0][1] == a[-1][1] and a[0][2] - a[-1][2] == len(a) - 1 \
+                            and [x[1:] for x in a] != [[a[0][1], a[0][2] - j] for j in range(len(a))]:
+                        f.add("expr:concat-with-slice-ends")
                 else:
                     f.add("expr:" + e[0])
         declared_so_far.add(m["name"])
